@@ -8,7 +8,8 @@ Tie 2 (model):   coq/Flags/FlagsModel.v (resolve / tokenise) is hand-written; it
                      permutations, duplicates, option values, malformed arguments), evaluated by the Coq
                      kernel (vm_compute) in parallel shards and compared inside Coq;
                    * exhaustively on all 3^k on/off/absent assignments of the k related flags x every level
-                     (canonical order), the model's results being computed by vm_compute and printed packed.
+                     (canonical order): for this volume the model is extracted (ExtrOcamlBasic only) and run
+                     natively; a sample of the extracted results is re-evaluated by the kernel in the same run.
 Direct checks:   the property's clauses are also evaluated on the implementation's own results, exhaustively on
                  the 3^k x levels domain, on sampled permutations, and on a pool of malformed arguments.
 Any disagreement or failed clause is reported with the exact (shrunk) command line.
